@@ -18,8 +18,10 @@
 //!   delivered it earlier: `echo-to-duplicate-deliverer` when that peer's delivery found the announcement
 //!   already stored (the code's FIXME: such a deliverer is not recorded), `echo-to-ignored-deliverer` when that
 //!   peer's delivery was ignored (announcer not yet in the address book) and the announcement was stored later
-//!   from another peer, `echo-after-prune` when the row the peer's delivery created was pruned and re-created
-//!   in between, `echo-to-recorded-deliverer` otherwise (the deliverer was recorded: must never happen);
+//!   from another peer, `echo-after-prune` only when the row the peer's delivery filled was really pruned
+//!   (gone after a wake and older than `now - gossip_max_age` at that wake) and the announcement was then stored
+//!   again by a later delivery (new row), `echo-to-recorded-deliverer` otherwise — the deliverer was recorded
+//!   for the row that is relayed: must never happen, whatever periodic task ran in between;
 //! * the answer to `Subscribe` never contains announcements of the subscriber (`replayed-to-announcer`).
 //!   Reading fixed: "relayed" = `Service::relay`; the answer to an explicit `Subscribe` request may
 //!   contain what the subscriber once delivered (counted as tag `replay-to-deliverer`).
@@ -51,15 +53,27 @@ fn oracle(recs: &[StepRec], tags: &mut Vec<String>) -> Vec<(String, String)> {
     let mut deliveries: Vec<Delivery> = vec![];
     let mut node_seen: BTreeSet<u64> = BTreeSet::new(); // announcers whose node announcement was stored
     let mut prev_rows: Vec<AnnObs> = vec![];
-    // per announcement: steps at which its row vanished
-    let mut vanished: Vec<(AnnObs, usize)> = vec![];
+    // rows that were really pruned: gone after a wake (`Elapse`) and older than the prune cut-off
+    // (`now - gossip_max_age`) at that wake — (announcement, step)
+    let mut pruned_at: Vec<(AnnObs, usize)> = vec![];
+    // (announcement, step) of every delivery that stored the announcement
+    let mut stored_at: Vec<(AnnObs, usize)> = vec![];
     let mut relayers_of: std::collections::BTreeMap<AnnObs, BTreeSet<u64>> = Default::default();
     for (j, r) in recs.iter().enumerate() {
         let rows_before = prev_rows.clone();
         // --- store updates
         let new_rows: Vec<&AnnObs> = r.rows.iter().filter(|x| !rows_before.contains(x)).collect();
-        for x in rows_before.iter().filter(|x| !r.rows.contains(x)) {
-            vanished.push((x.clone(), j));
+        if let Op::Recv(_, a) = &r.op {
+            if new_rows.contains(&&obs(a)) {
+                stored_at.push((obs(a), j));
+            }
+        }
+        if let Op::Elapse(_) = &r.op {
+            for x in rows_before.iter().filter(|x| !r.rows.contains(x)) {
+                if x.ts < r.clock_after.saturating_sub(GOSSIP_MAX_AGE) {
+                    pruned_at.push((x.clone(), j));
+                }
+            }
         }
         for x in &new_rows {
             if x.node == 0 {
@@ -145,19 +159,30 @@ fn oracle(recs: &[StepRec], tags: &mut Vec<String>) -> Vec<(String, String)> {
             if this_delivery {
                 viol.push(("echo-to-recorded-deliverer".into(), format!("op {j}: {} written to the peer delivering it", w.show())));
             }
-            if let Some(d) = deliveries.iter().find(|d| d.peer == w.peer && d.ann == w.ann) {
-                let pruned = vanished.iter().any(|(x, at)| *x == w.ann && *at > d.step && *at <= j);
-                let class = if d.duplicate {
-                    "echo-to-duplicate-deliverer"
-                } else if !d.stored {
-                    // the delivery was ignored (announcer not in the address book at the time)
-                    "echo-to-ignored-deliverer"
-                } else if pruned {
-                    "echo-after-prune"
+            // Every earlier delivery of this announcement by this peer; the echo is attributed to the most
+            // serious explanation: the peer WAS recorded for the row that is relayed now (must never happen)
+            // > the row its delivery filled was really pruned and the announcement stored again under a new
+            // row > its delivery was ignored > its delivery found the announcement already stored.
+            let mut worst: Option<(u8, &'static str, usize)> = None;
+            for d in deliveries.iter().filter(|d| d.peer == w.peer && d.ann == w.ann) {
+                let (rank, class) = if d.stored {
+                    // really pruned after this delivery, and stored again by a later delivery?
+                    let repruned = pruned_at.iter().any(|(x, m)| {
+                        *x == w.ann && *m > d.step && *m <= j
+                            && stored_at.iter().any(|(y, m2)| *y == w.ann && *m2 > *m && *m2 <= j)
+                    });
+                    if repruned { (2, "echo-after-prune") } else { (3, "echo-to-recorded-deliverer") }
+                } else if d.duplicate {
+                    (0, "echo-to-duplicate-deliverer")
                 } else {
-                    "echo-to-recorded-deliverer"
+                    (1, "echo-to-ignored-deliverer")
                 };
-                viol.push((class.into(), format!("op {j}: {} relayed to peer {} which delivered it at op {}", w.show(), w.peer, d.step)));
+                if worst.map(|(r0, _, _)| rank > r0).unwrap_or(true) {
+                    worst = Some((rank, class, d.step));
+                }
+            }
+            if let Some((_, class, at)) = worst {
+                viol.push((class.into(), format!("op {j}: {} relayed to peer {} which delivered it at op {}", w.show(), w.peer, at)));
             }
         }
         // --- record this step's delivery
@@ -250,6 +275,9 @@ fn run_case(input: &str) -> Outcome {
 
 struct Gen {
     toks: Vec<String>,
+    /// `last_gossip` / `last_prune` of the service, mirrored (0 = never woken)
+    last_gossip: u64,
+    last_prune: u64,
     clock: u64,
     connected: Vec<u64>,
     pool: Vec<AnnSpec>,
@@ -258,6 +286,17 @@ struct Gen {
 }
 
 impl Gen {
+    fn elapse(&mut self, dt: u64) {
+        self.clock += dt;
+        if self.clock - self.last_gossip >= 6000 {
+            self.last_gossip = self.clock;
+        }
+        if self.clock - self.last_prune >= 1_800_000 {
+            self.last_prune = self.clock;
+        }
+        self.toks.push(format!("e,{dt}"));
+    }
+
     fn ann(&mut self, rng: &mut Rng, n_repos: u64, allow_seed: bool) -> AnnSpec {
         let node = match rng.below(12) {
             0 => 0,     // the local node as announcer
@@ -316,6 +355,8 @@ fn gen_case(rng: &mut Rng, max_ops: u64, allow_seed: bool) -> String {
     let relay = !rng.chance(1, 8);
     let mut g = Gen {
         toks: vec![t0.to_string(), (relay as u8).to_string()],
+        last_gossip: 0,
+        last_prune: 0,
         clock: t0,
         connected: vec![],
         pool: vec![],
@@ -373,10 +414,40 @@ fn gen_case(rng: &mut Rng, max_ops: u64, allow_seed: bool) -> String {
                     g.toks.push(ann_tok(p, &a));
                 }
             }
-            60..=77 => {
-                let dt = *rng.pick(&[6000, 6000, 6000, 5999, 1, 0, 30_000, 1_800_000, 3_600_000, 3_600_001, 12_000]);
-                g.clock += dt;
-                g.toks.push(format!("e,{dt}"));
+            60..=74 => {
+                let dt = *rng.pick(&[6000, 6000, 6000, 5999, 1, 0, 30_000, 1_800_000, 3_600_000, 3_600_001, 12_000, 3000]);
+                g.elapse(dt);
+            }
+            75..=77 => {
+                // prune timer and gossip timer out of phase: wake a few seconds before the prune task is due
+                // (gossip runs), deliver fresh announcements, wake when ONLY the prune task is due, wake again
+                // (gossip): what was pending across the prune wake must still not be echoed
+                if g.last_prune == 0 {
+                    g.elapse(6000);
+                }
+                let due = g.last_prune + 1_800_000;
+                let lead = *rng.pick(&[3000u64, 3000, 2000, 5999, 4000]);
+                if due > g.clock + lead && due - lead - g.clock >= 6000 {
+                    g.elapse(due - lead - g.clock);
+                    for _ in 0..rng.range(1, 3) {
+                        let mut a = g.ann(rng, n_repos, false);
+                        if rng.chance(3, 4) {
+                            // a fresh inventory of a probably known announcer
+                            a = AnnSpec { node: rng.range(1, 5), kind: Kind::Inv, repo: 0, ts: g.clock + rng.below(3), sig_ok: true, inv: vec![rng.below(N_RIDS)], flag: false };
+                        }
+                        let p = if g.connected.is_empty() { 1 } else { *rng.pick(&g.connected) };
+                        g.toks.push(ann_tok(p, &a));
+                        g.pool.push(a);
+                    }
+                    g.elapse(lead); // prune due, gossip not (lead < 6000)
+                    if rng.bool() && !g.pool.is_empty() && !g.connected.is_empty() {
+                        let a = g.pool[g.pool.len() - 1].clone();
+                        let p = *rng.pick(&g.connected);
+                        g.toks.push(ann_tok(p, &a));
+                    }
+                    g.elapse(6000 - lead);
+                    g.elapse(lead);
+                }
             }
             78..=84 => {
                 if !g.connected.is_empty() {
@@ -428,7 +499,7 @@ fn gen_case(rng: &mut Rng, max_ops: u64, allow_seed: bool) -> String {
     }
     // let pending relays go out
     if rng.chance(3, 4) {
-        g.toks.push("e,6000".into());
+        g.elapse(6000);
     }
     g.toks.join(" ")
 }
